@@ -43,6 +43,15 @@ CLAIMED = {
          "Every allocation made by every reader primitive on an arbitrary byte string (arbitrary counts/lengths) and by every message Decode on arbitrary wire images stays within a linear budget of the input size.", "DESIGN.md §6 C10"),
  "C15": ("model_checking", "two symbolic executions of Decode on the same arbitrary image (fresh vs dirty receiver) compared by z3",
          "Error-ness, consumption and every field agree between a fresh and a dirty receiver (non-empty lists, other body type, nested parts holding data) for every type/key/shape and every arbitrary wire image.", "DESIGN.md §6 C15"),
+
+ "C16": ("model_checking", "object-identity (points-to) analysis by symbolic execution of Decode/Encode with aliasing views modelled (Bytes/Next/NewBuffer/unsafe.*), plus havoc of the other side's memory",
+         "On every explored path no string/slice reachable from a decoded message shares an object with the buffer and the message is unchanged when the buffer bytes are havocked; symmetric for Encode. The solver's role here is path feasibility; the aliasing verdict is structural (object identities of the executor).", "DESIGN.md §6 C16"),
+ "C17": ("model_checking", "symbolic execution of Encode on zero/constructor/wide/mismatching/absent-body/absent-part values; z3 decides the panic side conditions",
+         "No nil dereference, failed type assertion, index or slice bound violation is satisfiable on any path of any type's Encode for the listed value classes (all 226 keys for absent bodies, symbolic unregistered keys).", "DESIGN.md §6 C17"),
+ "C19": ("model_checking", "symbolic execution of the real Registry/Get/Remove/Clear from several pre-states against an atomic-map specification, lock-discipline (lockset) check on every path",
+         "Sequential behaviour equals an atomic map for every registered, unknown and symbolic name; every shared access is inside the single critical section of its operation with the right lock mode, which gives atomicity by reduction and race freedom for any number of goroutines (meta-argument stated in the evidence).", "DESIGN.md §6 C19"),
+ "C20": ("model_checking", "write-footprint obligation on every feasible path of every Encode/Decode (symbolic execution with ghost access records on pre-existing objects)",
+         "No path of any Encode/Decode writes to an object that existed after package initialisation, the registry is only read under its lock, and no concurrency primitive is reached; disjoint calls therefore commute (meta-argument).", "DESIGN.md §6 C20"),
 }
 
 NA_REASON = "check under construction in this session; not yet claimed"
